@@ -16,6 +16,10 @@ Definition hr (host : list N) (sub : bool) : rule :=
   {| r_is_cidr := false; r_host := sb host; r_sub := sub; r_px := {| px_fam := FBad; px_addr := 0; px_bits := 0 |} |}.
 Definition cr (f : fam) (a bits : N) : rule :=
   {| r_is_cidr := true; r_host := ""; r_sub := false; r_px := {| px_fam := f; px_addr := a; px_bits := bits |} |}.
+(** an IP/CIDR rule as netip parses the configured text; parseEgressRule's unmapping is the model's *)
+Definition crr (f : fam) (a bits : N) : rule :=
+  {| r_is_cidr := true; r_host := ""; r_sub := false;
+     r_px := compile_prefix {| px_fam := f; px_addr := a; px_bits := bits |} |}.
 Definition mkpol (ho rd rb : bool) (al dn : list rule) : policy :=
   {| p_https_only := ho; p_redirects := rd; p_rebind := rb; p_allow := al; p_deny := dn |}.
 
